@@ -37,7 +37,12 @@ func drawInjectorSet(t *rapid.T, p *Plan) {
 		n := rapid.IntRange(1, 2).Draw(t, "ninj")
 		for i := 0; i < n; i++ {
 			mode := []string{"value", "empty", "error"}[rapid.IntRange(0, 2).Draw(t, "injmode")]
-			p.ExtraInjectors = append(p.ExtraInjectors, ExtraInjector{Name: fmt.Sprintf("X-Custom-%d", i), Mode: mode, Value: fmt.Sprintf("custom-%d", i)})
+			val := fmt.Sprintf("custom-%d", i)
+			if drawBool(t, "injlong", 25) {
+				// a long value (a raw-hello style injector): around a page, around 8 KiB, 20 kB
+				val += strings.Repeat("v", []int{1000, 4090, 8180, 8192, 8200, 20000}[rapid.IntRange(0, 5).Draw(t, "injlen")])
+			}
+			p.ExtraInjectors = append(p.ExtraInjectors, ExtraInjector{Name: fmt.Sprintf("X-Custom-%d", i), Mode: mode, Value: val})
 		}
 		p.ExtraInjectorsLate = drawBool(t, "injlate", 40)
 	}
@@ -466,7 +471,7 @@ func oracleC05(w *World, c *Case) {
 					}
 					if e, ok := extra[n]; ok && e.Mode == "value" {
 						if len(vals) != 1 || vals[0] != e.Value {
-							w.Violate("custom", "custom", "%s: custom injector %s: got %q want [%q]", r.Tag, n, vals, e.Value)
+							w.Violate("custom", "custom", "%s: custom injector %s: got %q want [%q]", r.Tag, n, truncStrings(vals), truncStrings([]string{e.Value})[0])
 						}
 					}
 				}
